@@ -8,6 +8,7 @@
  *  B <enc> | <dec> | <cx> <cw> <when> | <scan> <ops> ; <scan> <ops> ; ...   buffered-image mode, one jpeg_crop_scanline
  *    (when = 0: in state DSTATE_BUFIMAGE before the first jpeg_start_output, 1: right after it), several output passes
  *  C  ... same as B on a decompress object that first decoded the stream completely (reuse probe)
+ *  K <enc> | <dec> | <buf> <x1> <w1> <x2> <w2>   jpeg_crop_scanline called twice (buf = 1: one call per output pass)
  *  T <W> <H> <samp> <mode> <arith> <prec> <rst> <pseed> | <sfidx> <fastups> <fastdct> <pf> [<bottomup> <pad>] | <x> <y> <w> <h>
  *    samp = digits h0 v0 h1 v1 ...; mode 0 baseline, 1 progressive, 2 sequential non-interleaved,
  *           3/4/5 progressive file truncated after 1/2/3 scans, 6 DC-only script with final Al = 1,
@@ -166,6 +167,13 @@ int main(void)
     if (kind == 'T') {
       if (nf < 3) { printf("bad-case\n"); continue; }
       tj_case(f[1], f[2]);
+    } else if (kind == 'K') {
+      struct dec s; int buf; long x1, w1, x2, w2; int nd; s.bscan = 0;
+      nd = nf >= 3 ? sscanf(f[1], "%d %d %d %d %d", &s.M, &s.fancy, &s.dct, &s.quant, &s.ocs) : 0;
+      if (nf < 3 || nd < 5 || sscanf(f[2], "%d %ld %ld %ld %ld", &buf, &x1, &w1, &x2, &w2) != 5) { printf("bad-case\n"); continue; }
+      s.fancy = 0; s.quant = 0;
+      if (get_full(&s) != 0) { printf("full-err %d\n", last_err); continue; }
+      if (E.prec == 8) khistory8(&E, &s, &F, buf, x1, w1, x2, w2); else khistory12(&E, &s, &F, buf, x1, w1, x2, w2);
     } else if (kind == 'B' || kind == 'C') {
       struct dec s; long cx, cw; int when = 0, nd, np = 0, pk[4]; char *pops[4]; static struct full FP[4]; int q, bad = 0; char *pp;
       s.bscan = 0;
